@@ -358,6 +358,7 @@ func c04CaseBody(c *core.Ctx, t *dyn.TypeOps, ch, k, s, e int, caseID string, fo
 	c.Sample("appendsample", d)
 	calls := 0
 	readWhole := false
+	bulkDone := false
 	for _, target := range counts {
 		for calls < target {
 			calls++
@@ -365,6 +366,26 @@ func c04CaseBody(c *core.Ctx, t *dyn.TypeOps, ch, k, s, e int, caseID string, fo
 			wasFull := win.M.Len == win.M.Cap
 			if win.M.Cap > 0 {
 				c.Distinct(core.NewHash().Str(caseID).Int(calls).Sum())
+			}
+			if !bulkDone && calls > 1 && win.M.Len%ch == 0 && win.M.Cap-win.M.Len >= 2*ch {
+				// between two sample appends one whole frame is appended in bulk
+				// (it fits in place): the next sample goes behind it
+				bulkDone = true
+				sb := t.Alloc(signal.Allocator{Channels: ch, Length: 1, Capacity: 1})
+				for i := 0; i < sb.Len(); i++ {
+					sb.SetSample(i, w.NextStamp())
+				}
+				sv := w.Adopt(sb, "bulk-source")
+				var aps []mon.Problem
+				if p, msg := core.Guard(func() { aps = w.Append(win, sv) }); p {
+					c.Violate(inst+"|panic", caseID, "a bulk Append of one frame between sample appends panicked: "+msg, d)
+					return
+				}
+				if len(aps) > 0 {
+					report(c, inst+"|bulk-append-between-samples", caseID, aps, d)
+					return
+				}
+				c.Obs("bulk_appends_between_two_sample_appends", 1)
 			}
 			if wasFull && !readWhole {
 				// the full buffer is read out completely (a consumer drains it)
